@@ -2,13 +2,18 @@ package main
 
 import (
 	"context"
+	"crypto"
 	"crypto/ecdsa"
 	"crypto/elliptic"
 	"crypto/rand"
 	"crypto/sha256"
 	"crypto/x509"
+	"encoding/base64"
 	"encoding/hex"
+	"encoding/json"
 	"encoding/pem"
+	"net/http"
+	"net/http/httptest"
 	"time"
 
 	"go.step.sm/crypto/jose"
@@ -32,7 +37,16 @@ type env struct {
 	jwk2   *jose.JSONWebKey
 	k8sKey *ecdsa.PrivateKey
 	provs  provisioner.List
+	// OIDC issuer on loopback (discovery + JWKS), provisioner "oidc" (the id of a token is its nonce)
+	oidcKey *jose.JSONWebKey
+	oidcSrv *httptest.Server
+	// a certificate of the CA and its key: signs admin (x5c) and renew (x5cInsecure) tokens
+	leaf    *x509.Certificate
+	leafKey crypto.Signer
 }
+
+const oidcClient = "verif-client"
+const oidcAdmin = "admin@example.com"
 
 func must[T any](v T, err error) T {
 	if err != nil {
@@ -48,12 +62,46 @@ func newEnv(hasDB, noChk bool, hooks *ss.Hooks) *env {
 	pub2 := e.jwk2.Public()
 	e.k8sKey = must(ecdsa.GenerateKey(elliptic.P256(), rand.Reader))
 	der := must(x509.MarshalPKIXPublicKey(&e.k8sKey.PublicKey))
+	e.oidcKey = must(jose.GenerateJWK("EC", "P-256", "ES256", "sig", "", 0))
+	e.oidcKey.KeyID = "oidc-key-1"
+	mux := http.NewServeMux()
+	e.oidcSrv = httptest.NewServer(mux)
+	mux.HandleFunc("/.well-known/openid-configuration", func(w http.ResponseWriter, _ *http.Request) {
+		json.NewEncoder(w).Encode(map[string]any{"issuer": e.oidcSrv.URL, "jwks_uri": e.oidcSrv.URL + "/keys",
+			"authorization_endpoint": e.oidcSrv.URL + "/auth", "token_endpoint": e.oidcSrv.URL + "/token"})
+	})
+	mux.HandleFunc("/keys", func(w http.ResponseWriter, _ *http.Request) {
+		json.NewEncoder(w).Encode(jose.JSONWebKeySet{Keys: []jose.JSONWebKey{e.oidcKey.Public()}})
+	})
 	e.provs = provisioner.List{
+		&provisioner.OIDC{Type: "OIDC", Name: "oidc", ClientID: oidcClient,
+			ConfigurationEndpoint: e.oidcSrv.URL + "/.well-known/openid-configuration", Admins: []string{oidcAdmin}},
 		&provisioner.JWK{Type: "JWK", Name: "jwk2", Key: &pub2},
 		&provisioner.K8sSA{Type: "K8sSA", Name: "k8s", PubKeys: pem.EncodeToMemory(&pem.Block{Type: "PUBLIC KEY", Bytes: der})},
 	}
 	e.ca = must(fixture.New(e.opts(nil)))
+	cn := "step-" + randHex()
+	csr, key, err := fixture.CSR(cn, []string{cn + ".example.com"})
+	if err != nil {
+		panic(err)
+	}
+	e.leaf = must(e.ca.SignX509(must(e.ca.Token(fixture.TokenOpts{Subject: cn, SANs: []string{cn + ".example.com"}})), csr, provisioner.SignOptions{}))[0]
+	e.leafKey = key
 	return e
+}
+
+// mintHdr signs claims with extra protected headers (x5c / x5cInsecure certificate chains).
+func mintHdr(key any, alg string, hdr map[string]any, claims map[string]any) string {
+	so := new(jose.SignerOptions).WithType("JWT")
+	for k, v := range hdr {
+		so = so.WithHeader(jose.HeaderKey(k), v)
+	}
+	sig := must(jose.NewSigner(jose.SigningKey{Algorithm: jose.SignatureAlgorithm(alg), Key: key}, so))
+	return must(jose.Signed(sig).Claims(claims).CompactSerialize())
+}
+
+func (e *env) chain() []string {
+	return []string{base64.StdEncoding.EncodeToString(e.leaf.Raw), base64.StdEncoding.EncodeToString(e.ca.MiniCA.Intermediate.Raw)}
 }
 
 func (e *env) opts(from *fixture.CA) fixture.Opts {
@@ -91,7 +139,12 @@ func (e *env) restart() int64 {
 
 func (e *env) startSec() int64 { return e.ca.Auth.GetInfo().StartTime.Unix() }
 
-func (e *env) close() { e.ca.Close() }
+func (e *env) close() {
+	e.ca.Close()
+	if e.oidcSrv != nil {
+		e.oidcSrv.Close()
+	}
+}
 
 // mint signs arbitrary claims with the given key (typ JWT, kid header).
 func mint(key any, alg, kid string, claims map[string]any) string {
